@@ -172,4 +172,7 @@ C18_Balance == Quiet =>
     /\ (m.received - h.exitRecvd) + (m.dropped - m.chDropped) = Cardinality(h.sawOpen)
     /\ m.reduced = (m.received - h.exitRecvd) - Cardinality(h.vetoed)
     /\ m.reduced = Len(h.red)
+    /\ m.effIssued = h.effRet          \* effects issued = effects the reducers returned
+    /\ m.mwExecuted = h.mwCalls        \* middleware executions = hooks actually invoked
+    /\ m.errors = h.implRej            \* errors = dispatches rejected by the store's own dispatch method
 =============================================================================
